@@ -626,7 +626,47 @@ def build(case: Case, *, cfi=None) -> Built:
         m.aux_data["functionEntries"] = gtirb.AuxData(fe, "mapping<UUID,set<UUID>>")
         m.aux_data["functionNames"] = gtirb.AuxData(fn, "mapping<UUID,UUID>")
     _derive_cfg(out)
+    if c.spec.get("aux"):
+        _extra_aux(out, c.spec["aux"])
     return out
+
+
+def _extra_aux(out, aux):
+    """Aux tables that mention generated nodes (C05 closure checks)."""
+    import gtirb
+
+    c, m = out.case, out.module
+    A = gtirb.AuxData
+    code = [g for g in sorted(out.blocks) if c.blocks[g].code]
+    data = [g for g in sorted(out.blocks) if not c.blocks[g].code]
+    k = aux.get("seed", 0)
+
+    def pick(lst, n):
+        return [lst[(k + 3 * j) % len(lst)] for j in range(min(n, len(lst)))] if lst else []
+
+    if aux.get("blocks"):
+        m.aux_data["SCCs"] = A({out.blocks[g]: g for g in code}, "mapping<UUID,int64_t>")
+        m.aux_data["profile"] = A({out.blocks[g]: 7 + g for g in pick(code, 3)}, "mapping<UUID,uint64_t>")
+        if data:
+            m.aux_data["encodings"] = A({out.blocks[g]: "string" for g in pick(data, 2)}, "mapping<UUID,string>")
+            m.aux_data["types"] = A({out.blocks[g]: "uint8_t" for g in pick(data, 2)}, "mapping<UUID,string>")
+    if aux.get("special") and code:
+        if c.fmt == "elf":
+            m.aux_data["elfDynamicInit"] = A(out.blocks[pick(code, 1)[0]], "UUID")
+            m.aux_data["elfDynamicFini"] = A(out.blocks[code[(k + 1) % len(code)]], "UUID")
+        else:
+            m.aux_data["peSafeExceptionHandlers"] = A({out.blocks[g] for g in pick(code, 2)}, "set<UUID>")
+    if aux.get("symbols"):
+        labels = [out.symbols[n] for n in sorted(c.label_block)]
+        if c.fmt == "elf":
+            m.aux_data["elfSymbolInfo"] = A(
+                {s: (0, "FUNC" if s.name.startswith("f") else "NOTYPE", "GLOBAL", "DEFAULT", 0) for s in labels},
+                "mapping<UUID,tuple<uint64_t,string,string,string,uint64_t>>")
+        else:
+            m.aux_data["peExportedSymbols"] = A(labels[:2], "sequence<UUID>")
+        if len(labels) >= 1:
+            m.aux_data["symbolForwarding"] = A({out.symbols["ext1"]: labels[k % len(labels)]}, "mapping<UUID,UUID>")
+    m.aux_data["sectionProperties"] = A({sec: (1, 6) for sec, _bi in out.sections}, "mapping<UUID,tuple<uint64_t,uint64_t>>")
 
 
 def _next_code_block(c: Case, g: int) -> Optional[int]:
